@@ -24,6 +24,8 @@ AUDIT = os.path.join(os.path.dirname(os.path.dirname(os.path.abspath(__file__)))
 
 def run(ctx):
     fx, res = ctx.fx, ctx.res
+    import lemmas
+    lemmas.osstr_find_complete(fx, res, "R13.3")
     cl = fx.crate("clap_lex")
     # ---- R13.1
     sa = [c for b in cl.bodies for c in b.calls_to(r"^clap_lex::ext::split_at$")]
